@@ -1,4 +1,5 @@
 (* C05 - The mnemonic is a lossless encoding of the entropy. *)
+From B39 Require Import Proofs.Calls.
 From B39 Require Import Lib.Base Lib.Sha256 Lib.Utf8 Lib.TableWF Model.GenTypes Model.Model Spec.Bip39Spec.
 From B39 Require Import Proofs.Tables Proofs.Encode Proofs.Unicode Proofs.Roundtrip.
 
@@ -31,6 +32,11 @@ Proof.
   destruct (C05_decode e1 name lg H1 Hs) as [m1 [M1 D1]]. destruct (C05_decode e2 name lg H2 Hs) as [m2 [M2 D2]].
   rewrite M1, M2 in E. injection E as E. subst m2. rewrite D1 in D2. injection D2 as D2. exact D2.
 Qed.
+
+(* the functions this property is about, and every package function they reach, call only what the model
+   accounts for (closed world of callees, computed on coq/Gen/Calls.v, regenerated from the source every run) *)
+Theorem C05_callees : reach_ok "NewMnemonicByEntropy" = true /\ reach_ok "NewMnemonic" = true /\ reach_ok "fromEntropy" = true.
+Proof. exact calls_generator. Qed.
 
 Print Assumptions C05_decode.
 Print Assumptions C05_injective.
